@@ -108,45 +108,16 @@ def run(prog, chk, tier):
 
 
 def offsets(prog, chk, rule="offset-agreement"):
-    hb = prog.bodies[PE.HDR_FROM_BYTES]
-    og = Origins(prog, hb)
-    is_p1 = lambda s: s == ("param", 1)
-    sites = [s for s in e1.construct_sites(prog, HDR) if s["body"] == PE.HDR_FROM_BYTES]
-    chk.ob(rule, "MessageHeader is constructed once, in from_bytes", len(sites) == 1 and len(e1.construct_sites(prog, HDR)) == 1, how="who-may-construct")
-    if len(sites) == 1:
-        names = [f["name"] for f in prog.adts[HDR]["variants"][0]["fields"]]
-        ops = {nm: shape(og.operand(o)) for nm, o in zip(names, sites[0]["stmt"]["rv"]["ops"])}
-        mt = ops.get("mtype")
-        ok = (isinstance(mt, tuple) and mt[0] == "field" and mt[1][0] == "variant" and mt[1][2] == "Continue"
-              and mt[1][1][0] == "call" and mt[1][1][1].endswith("as std::ops::Try>::branch")
-              and mt[1][1][2][0][:2] == ("call", "stun_types::message::MessageType::from_bytes") and is_p1(mt[1][1][2][0][2][0]))
-        chk.ob(rule, "header.mtype = MessageType::from_bytes(data)?", ok, detail=repr(mt)[:300], how="origin")
-        ln = ops.get("length")
-        ok = isinstance(ln, tuple) and ln[0] == "call" and ln[1].endswith("ByteOrder>::read_u16") and is_index(ln[2][0], "RangeFrom", 2, is_p1)
-        chk.ob(rule, "header.length = read_u16(&data[2..])", ok, detail=repr(ln)[:300], how="origin")
-        tid = ops.get("transaction_id")
-        ok = (isinstance(tid, tuple) and tid[0] == "call" and tid[1].endswith("Into<stun_types::message::TransactionId>>::into")
-              and tid[2][0][0] == "call" and tid[2][0][1].endswith("ByteOrder>::read_u128") and is_index(tid[2][0][2][0], "RangeFrom", 4, is_p1))
-        chk.ob(rule, "header.transaction_id = read_u128(&data[4..]).into()", ok, detail=repr(tid)[:300], how="origin")
-    # Message getters
-    is_data = lambda s: isinstance(s, tuple) and s[0] == "field" and s[2] == "data" and s[1] == ("deref", ("param", 1)) or (isinstance(s, tuple) and s[0] == "field" and s[2] == "data")
-    g = prog.bodies["stun_types::message::Message::<'a>::transaction_id"]
-    sh = shape(Origins(prog, g).local(0))
-    ok = (sh[0] == "call" and sh[1].endswith("Into<stun_types::message::TransactionId>>::into") and sh[2][0][0] == "call"
-          and sh[2][0][1].endswith("ByteOrder>::read_u128") and is_index(sh[2][0][2][0], "RangeFrom", 4, is_data))
-    chk.ob(rule, "Message::transaction_id = read_u128(&self.data[4..]).into()", ok, detail=repr(sh)[:300], how="origin")
-    g = prog.bodies["stun_types::message::Message::<'a>::get_type"]
-    sh = shape(Origins(prog, g).local(0))
-    ok = (sh[0] == "call" and sh[1].endswith("::unwrap") and sh[2][0][0] == "call" and sh[2][0][1].endswith("MessageType as std::convert::TryFrom<&[u8]>>::try_from")
-          and is_index(sh[2][0][2][0], "RangeTo", 2, is_data))
-    chk.ob(rule, "Message::get_type = MessageType::try_from(&self.data[..2]).unwrap()", ok, detail=repr(sh)[:300], how="origin")
+    """the header decoder's fields and the Message getters read the same bytes (decided over byte variables, whatever
+    reading idiom the source uses), and the full parser delegates to the header decoder on its own argument"""
+    from rules import walk_e2 as W
+    W.header_semantics(prog, chk, rule="header-acceptance", exposure_rule=rule)
+    W.getter_semantics(prog, chk, rule=rule)
     tf = prog.bodies.get("<stun_types::message::MessageType as std::convert::TryFrom<&[u8]>>::try_from")
     if tf is not None:
         sh = shape(Origins(prog, tf).local(0))
         ok = sh[0] == "call" and sh[1] == "stun_types::message::MessageType::from_bytes" and sh[2][0] == ("param", 1)
         chk.ob(rule, "MessageType::try_from delegates to MessageType::from_bytes", ok, detail=repr(sh)[:200], how="origin")
-    else:
-        chk.fail(rule, "MessageType: TryFrom<&[u8]> impl not found")
     # the full parser decodes the header from its own argument
     from dtable import instrumented_body
     fb, ups = instrumented_body(prog, PE.FROM_BYTES)
